@@ -29,26 +29,6 @@ Definition wake_pc (p : qpc) : bool :=
 Definition unique_pc (p : qpc) : bool :=
   match p with QSpinX NUnique | QSpinL NUnique | QUlStore => true | _ => false end.
 
-Record QInv (s : qrw) : Prop := mkQInv {
-  q_excl : excl_ (ls s) (qholders s);
-  q_spin1 : forall t, spin_pc (qp (qthr s t)) = true -> spin s = Some t;
-  q_spin2 : forall t, spin s = Some t -> spin_pc (qp (qthr s t)) = true;
-  q_qu : forall h, In h (qu s) -> (qp (qthr s h) = QDefer \/ qp (qthr s h) = QSleep) /\ qwake (qthr s h) = None /\ qmd (qthr s h) = WR;
-  q_qs : forall h, In h (qs s) -> (qp (qthr s h) = QDefer \/ qp (qthr s h) = QSleep) /\ qwake (qthr s h) = None /\ qmd (qthr s h) = RD;
-  q_ndu : NoDup (qu s);
-  q_nds : NoDup (qs s);
-  q_wk : forall t w, qwake (qthr s t) = Some w -> wake_pc (qp (qthr s t)) = true;
-  q_ulW : forall t, unique_pc (qp (qthr s t)) = true -> In (t, WR) (qholders s);
-  q_ulR : forall t, qp (qthr s t) = QUlSub -> In (t, RD) (qholders s);
-  q_ulL : forall t, qp (qthr s t) = QUlLoad -> qholds s t = true
-}.
-
-Lemma QInv0 : QInv qrw0.
-Proof.
-  constructor; simpl; try (intros; discriminate); try tauto; try (constructor; fail).
-  left. split; [constructor|reflexivity].
-Qed.
-
 Ltac qbreak H :=
   unfold qth_step, q_success, q_fail, q_xchg, q_after_spin, q_notify, q_dequeue in H;
   repeat (match type of H with
@@ -75,45 +55,6 @@ Ltac qstep_cases Hstep :=
 Ltac qthr_simp :=
   unfold qgoto, qset_thr, qset_qu, qset_qs, qset_spin, qset_ls, qset_holders, qset_nlog in *; simpl in *.
 
-Ltac qupd_cases :=
-  repeat match goal with
-  | |- context [upd _ ?t _ ?u] => unfold upd at 1; destruct (Nat.eqb_spec u t); subst; simpl
-  end.
-
-Ltac qpcfacts :=
-  repeat match goal with
-  | H1 : qp ?x = _, H2 : qp ?x = _ |- _ => rewrite H1 in H2; try discriminate H2
-  | H1 : qp ?x = _, H2 : context [qp ?x] |- _ => rewrite H1 in H2; simpl in H2
-  | H1 : qp ?x = _ |- context [qp ?x] => rewrite H1; simpl
-  | H1 : qmd ?x = _, H2 : context [qmd ?x] |- _ => rewrite H1 in H2; simpl in H2
-  | H1 : qmd ?x = _ |- context [qmd ?x] => rewrite H1; simpl
-  end.
-
-Definition qdone (x : tid) : Prop := True.
-
-Ltac qinst_all H1 H2 H3 H4 H5 H6 H7 H8 :=
-  repeat match goal with
-  | x : tid |- _ =>
-      lazymatch goal with
-      | _ : qdone x |- _ => fail
-      | _ => pose proof (H1 x); pose proof (H2 x); pose proof (H3 x); pose proof (H4 x); pose proof (H5 x);
-             pose proof (H6 x); pose proof (H7 x); pose proof (H8 x);
-             assert (qdone x) by exact I
-      end
-  end.
-
-Ltac qwake_inst :=
-  repeat match goal with
-  | E : qwake (qthr ?s ?x) = Some ?w, H : forall w, qwake (qthr ?s ?x) = Some w -> _ |- _ => pose proof (H _ E); clear H
-  end.
-
-Ltac qsubst_q :=
-  repeat match goal with
-  | E : qu ?s = _, H : context [qu ?s] |- _ => lazymatch H with E => fail | _ => rewrite E in H end
-  | E : qu ?s = _ |- context [qu ?s] => rewrite E
-  | E : qs ?s = _, H : context [qs ?s] |- _ => lazymatch H with E => fail | _ => rewrite E in H end
-  | E : qs ?s = _ |- context [qs ?s] => rewrite E
-  end.
 
 Lemma remove_holder_keep t u m l : u <> t -> In (t, m) l -> In (t, m) (remove_holder u l).
 Proof.
@@ -122,17 +63,124 @@ Proof.
   inversion H; subst. tauto.
 Qed.
 
-Lemma qholds_In s t : qholds s t = true <-> In t (map fst (qholders s)).
-Proof. unfold qholds. apply mem_tid_In. Qed.
+Lemma in_fst {A B} (a : A) (b : B) l : In (a, b) l -> In a (map fst l).
+Proof. intros H. apply (in_map fst) in H. exact H. Qed.
 
-Lemma QInv_step s l s' : QInv s -> qwf_label s l = true -> qstep s l = Some s' -> QInv s'.
+(* ================================================================================================
+   A. the ledger: qrw_excl
+   ================================================================================================ *)
+Record QA (s : qrw) : Prop := mkQA {
+  qa_excl : excl_ (ls s) (qholders s);
+  qa_W : forall t, unique_pc (qp (qthr s t)) = true -> In (t, WR) (qholders s);
+  qa_R : forall t, qp (qthr s t) = QUlSub -> In (t, RD) (qholders s);
+  qa_L : forall t, qp (qthr s t) = QUlLoad -> In t (map fst (qholders s));
+  qa_C : forall t slow v, qp (qthr s t) = QCas slow v -> shared_ok v = true /\ qmd (qthr s t) = RD
+}.
+
+Lemma QA0 : QA qrw0.
+Proof. constructor; simpl; try (intros; discriminate). left. split; [constructor|reflexivity]. Qed.
+
+Lemma excl_add_W hs t : excl_ 0 hs -> excl_ (-1) ((t, WR) :: hs).
 Proof.
-  intros HI Hwf Hstep.
-  destruct HI as [Hexcl Hs1 Hs2 Hqu Hqs Hndu Hnds Hwk HuW HuR HuL].
+  intros [[_ Hl]|[w [_ H]]]; [|discriminate H].
+  destruct hs; [|simpl in Hl; lia]. right. exists t. split; reflexivity.
+Qed.
+
+Lemma excl_add_R v hs t : 0 <= v -> excl_ v hs -> excl_ (v + 1) ((t, RD) :: hs).
+Proof.
+  intros Hv [[Hall Hl]|[w [_ H]]]; [|lia].
+  left. split; [constructor; [reflexivity|exact Hall]|]. simpl length. lia.
+Qed.
+
+Lemma excl_store0 hs t : excl_ (-1) hs -> In (t, WR) hs -> excl_ 0 (remove_holder t hs).
+Proof.
+  intros [[_ Hl]|[w [-> _]]] Hin; [lia|].
+  destruct Hin as [H|[]]. inversion H; subst. simpl. rewrite Nat.eqb_refl. left. split; [constructor|reflexivity].
+Qed.
+
+Lemma excl_sub v hs t : excl_ v hs -> In (t, RD) hs -> excl_ (v - 1) (remove_holder t hs) /\ 1 <= v.
+Proof.
+  intros [[Hall Hl]|[w [-> _]]] Hin.
+  - pose proof (remove_holder_length t hs (in_fst _ _ _ Hin)) as Hlen.
+    split; [|subst v; lia]. left. split; [apply remove_holder_Forall; exact Hall|]. subst v. lia.
+  - destruct Hin as [H|[]]. discriminate H.
+Qed.
+
+Lemma excl_W_is hs t : excl_ (-1) hs -> In t (map fst hs) -> In (t, WR) hs.
+Proof.
+  intros [[_ Hl]|[w [-> _]]] Hin; [lia|]. simpl in Hin. destruct Hin as [<-|[]]. left. reflexivity.
+Qed.
+
+Lemma excl_R_is v hs t : excl_ v hs -> v <> -1 -> In t (map fst hs) -> In (t, RD) hs.
+Proof.
+  intros [[Hall _]|[w [_ H]]] Hv Hin; [|tauto].
+  apply in_map_iff in Hin. destruct Hin as [[x m] [Hx Hin]]. simpl in Hx. subst x.
+  rewrite Forall_forall in Hall. pose proof (Hall _ Hin) as Hm. simpl in Hm. subst m. exact Hin.
+Qed.
+
+Ltac pw_intro x Hx t :=
+  intros x; unfold upd; destruct (Nat.eqb_spec x t) as [->|?]; simpl; intros Hx.
+
+Lemma QA_step s l s' : QA s -> qwf_label s l = true -> qstep s l = Some s' -> QA s'.
+Proof.
+  intros [Hexcl HW HR HL HC] Hwf Hstep.
   qstep_cases Hstep; qthr_simp.
   all: constructor; simpl.
-  all: try solve [assumption].
-  all: try solve [intros; qsubst_q; qupd_cases; qinst_all Hs1 Hs2 Hqu Hqs Hwk HuW HuR HuL; qwake_inst; qpcfacts; simpl in *;
-                  intuition (try congruence; try discriminate; eauto)].
-  all: match goal with |- ?G => idtac "GOAL" G end.
-Abort.
+  all: try solve [exact Hexcl].
+  (* other threads *)
+  all: try solve [pw_intro x Hx t;
+                  [ try discriminate Hx
+                  | first [ apply HW; exact Hx | apply HR; exact Hx | apply HL; exact Hx
+                          | right; first [apply HW; exact Hx | apply HR; exact Hx | apply HL; exact Hx]
+                          | apply remove_holder_keep; [assumption| first [apply HW; exact Hx | apply HR; exact Hx]]
+                          | apply remove_holder_other; [assumption | apply HL; exact Hx] ] ]].
+  all: try solve [pw_intro x Hx t; [|apply HC; exact Hx]; intros slow' v' Hx; simpl in Hx;
+                  first [discriminate Hx | eapply HC; exact Hx
+                        | inversion Hx; subst; split; assumption ]].
+  all: try solve [intros x slow' v'; unfold upd; destruct (Nat.eqb_spec x t) as [->|?]; simpl; intros Hx;
+                  [ first [discriminate Hx | eapply HC; exact Hx | inversion Hx; subst; split; assumption
+                          | inversion Hx; subst; split; [assumption|]; eapply HC; eassumption ]
+                  | eapply HC; exact Hx ]].
+  (* the stutter of a spinner *)
+  all: try solve [first [exact HW | exact HR | exact HL | exact HC]].
+  (* only wake fields change *)
+  all: try solve [intros x; unfold upd; repeat (match goal with |- context [Nat.eqb ?a ?b] => destruct (Nat.eqb_spec a b); subst; simpl end);
+                  intros Hx; first [discriminate Hx | apply HW; exact Hx | apply HR; exact Hx | apply HL; exact Hx]].
+  all: try solve [intros x slow' v'; unfold upd; repeat (match goal with |- context [Nat.eqb ?a ?b] => destruct (Nat.eqb_spec a b); subst; simpl end);
+                  intros Hx; first [discriminate Hx | eapply HC; exact Hx]].
+  (* unlock() called by a holder *)
+  all: try solve [pw_intro x Hx t; [apply qholds_In; exact Hwf | apply HL; exact Hx]].
+  (* successful try *)
+  all: try match goal with E0 : (ls _ =? _) = true |- _ => apply Z.eqb_eq in E0 end.
+  all: try solve [apply excl_add_W; match goal with E0 : ls _ = 0 |- _ => rewrite <- E0 end; exact Hexcl].
+  all: try solve [match goal with E0 : qp (qthr _ _) = QCas _ _ |- _ => destruct (HC _ _ _ E0) as [Hok Hmd] end;
+                  rewrite Hmd; apply excl_add_R;
+                  [ unfold shared_ok in Hok; apply andb_true_iff in Hok; destruct Hok as [Hok _]; apply Z.leb_le in Hok; exact Hok
+                  | match goal with E0 : ls _ = _ |- _ => rewrite <- E0 end; exact Hexcl ]].
+  (* spinning for __unlock_unique keeps the write hold *)
+  all: try solve [pw_intro x Hx t; [apply HW; rewrite E; destruct n; simpl in *; try discriminate; reflexivity | apply HW; exact Hx]].
+  all: try solve [pw_intro x Hx t; [simpl in Hwf; apply qholds_In; exact Hwf | apply HL; exact Hx]].
+  all: try solve [pw_intro x Hx t; [apply HW; rewrite E; reflexivity | apply HW; exact Hx]].
+  all: try solve [pw_intro x Hx t; [|apply HW; exact Hx]; apply excl_W_is; [|apply HL; exact E];
+                  match goal with E0 : ls _ = -1 |- _ => rewrite <- E0 end; exact Hexcl].
+  all: try solve [pw_intro x Hx t; [|apply HR; exact Hx]; apply (excl_R_is (ls s)); [exact Hexcl | | apply HL; exact E];
+                  match goal with E0 : (ls _ =? -1) = false |- _ => apply Z.eqb_neq in E0; exact E0 end].
+  all: try solve [apply excl_sub; [exact Hexcl | apply HR; exact E]].
+  all: try solve [pw_intro x Hx t; [simpl in Hx; discriminate Hx |
+                  apply remove_holder_keep; [assumption | first [apply HW; exact Hx | apply HR; exact Hx]]]].
+  all: try solve [apply excl_store0; [|apply HW; rewrite E; reflexivity];
+                  destruct Hexcl as [[Hall Hl]|[w [Hh Hl]]]; [|rewrite Hl; right; exists w; split; [exact Hh|reflexivity]];
+                  exfalso; assert (In (t, WR) (qholders s)) as Hin by (apply HW; rewrite E; reflexivity);
+                  rewrite Forall_forall in Hall; apply Hall in Hin; discriminate Hin].
+  all: try solve [pw_intro x Hx t; [apply (proj1 (qholds_In _ _)); exact Hwf | apply HL; exact Hx]].
+  all: try solve [pw_intro x Hx t; [simpl in Hx; discriminate Hx |
+                  apply remove_holder_keep; [congruence | first [apply HW; exact Hx | apply HR; exact Hx]]]].
+  assert (In (t, WR) (qholders s)) as Hin by (apply HW; rewrite E; reflexivity).
+  destruct Hexcl as [[Hall Hl]|[w [Hh Hl]]].
+  - exfalso. rewrite Forall_forall in Hall. apply Hall in Hin. discriminate Hin.
+  - apply excl_store0; [right; exists w; split; [exact Hh|reflexivity] | exact Hin].
+Qed.
+
+
+Lemma qreach_QA s : qreach s -> QA s.
+Proof. induction 1; [exact QA0|eapply QA_step; eauto]. Qed.
